@@ -13,6 +13,7 @@ DayNoOf(k) ==
     [] k = 6 -> <<0, 29, 30, 31, 60, 61>>
     [] k = 7 -> <<0, 1, 2>>
     [] k = 8 -> <<0, 1, 2, 3, 4, 30, 31>>
+    [] k = 11 -> <<0, 1, 31, 32, 62>>       \* 30- and 31-day gaps between slots 1-3, 2-3, 2-4, 3-5, 4-5
     [] k = 9 -> <<0, 1, 2, 33, 34>>          \* prefix of 3 slots, then slots more than 30 days later
     [] k = 10 -> <<0, 29, 30, 61, 62, 92>>   \* prefix of 3 slots (30-day edge inside), extension 31 days later
 
